@@ -20,6 +20,30 @@ Theorem C13_join_reaches_first : forall nt server boots b,
   (server = true -> n_boots (get nt 0) = [] -> mem j (n_main (get nt' 0)) = true).
 Proof. exact join_reaches_first. Qed.
 
+(* ... and by induction over whole histories — joins (servers and clients, any bootstrap lists that name
+   existing nodes of which one responds and is, or knows, the first node; or no bootstrap list at all),
+   dead addresses, lookups of every kind, puts, gets, and crashes of any node but the first: in every
+   network so reached, every node that was given bootstrap nodes knows the first node, and the first node
+   (alive, in server mode) knows every such server *)
+Theorem C13_every_history : forall evs,
+  hist_ok (join [] true []) evs -> hub_inv (fold_left nstep evs (join [] true [])).
+Proof. intros evs H. exact (hub_history evs _ hub_start H). Qed.
+
+(* non-vacuity: an admissible history with a server, a client joining through it, a crash, a put and a get *)
+Example C13_history_nonvacuous :
+  hist_ok (join [] true []) [EJoin true [0]; EJoin false [1]; ELookup 2 false; ECrash 1; EPut 2 7; EGet 2 7].
+Proof.
+  cbn [hist_ok ev_ok]. repeat split; try discriminate.
+  - intros x [<-|[]]. cbn. auto.
+  - right. exists 0. split; [now left|]. split; [reflexivity|now left].
+  - intros x [<-|[]]. vm_compute. auto.
+  - right. exists 1. split; [now left|]. split; [reflexivity|right; reflexivity].
+Qed.
+
+(* every event keeps what the existing nodes know, their modes and bootstrap lists; only a crash changes liveness *)
+Theorem C13_events_keep_knowledge : forall e nt i, i < length nt -> keeps nt (nstep nt e) i e.
+Proof. exact step_keeps. Qed.
+
 (* what was learned is kept: lookups only add to the tables, and leave liveness, mode, bootstrap lists alone *)
 Theorem C13_tables_only_grow : forall nt j find key i x, i < length nt ->
   mem x (n_main (get nt i)) = true -> mem x (n_main (get (lookup nt j find key) i)) = true.
@@ -52,6 +76,9 @@ Example C13_nonvacuous :
   (n_main (get nt 0), n_main (get nt 1), n_main (get nt 2)) = ([1; 2], [0], [1; 0]).
 Proof. reflexivity. Qed.
 
+Print Assumptions C13_every_history.
+Print Assumptions C13_history_nonvacuous.
+Print Assumptions C13_events_keep_knowledge.
 Print Assumptions C13_join_reaches_first.
 Print Assumptions C13_tables_only_grow.
 Print Assumptions C13_connected_through_first.
